@@ -377,6 +377,16 @@ func (env *Env) callSpec(x *ast.CallExpr, fn *types.Func, spec *FuncSpec, recvEx
 				ai = &args[k]
 			}
 		}
+		if ai == nil && fn.Pkg() != nil {
+			// a package-level variable of the callee's package: its value after the call is whatever the callee's
+			// postconditions say about it, otherwise unknown
+			if gv, ok := fn.Pkg().Scope().Lookup(m).(*types.Var); ok {
+				nv := c.fresh("g."+m+"_post", env.ss().SortOf(gv.Type()))
+				env.st.Assume(c.typeFacts(nv, gv.Type()))
+				env.st.vars[gv] = nv
+				continue
+			}
+		}
 		if ai == nil {
 			env.fail(x.Pos(), "modifies %s: no such parameter in contract of %s", m, spec.Key)
 		}
@@ -589,6 +599,9 @@ func (env *Env) builtin(name string, x *ast.CallExpr) Val {
 		t := env.typeOf(x)
 		sort := ss.SortOf(t)
 		si := ss.Info(sort)
+		if si == nil {
+			env.fail(x.Pos(), "make of %s (channels and other unmodelled types are outside the subset)", exprString(x.Args[0]))
+		}
 		switch si.Kind {
 		case KSlice:
 			n := env.toIntIndex(env.eval(x.Args[1]), x.Pos())
